@@ -731,7 +731,10 @@ def big_check(wd, recs, chunk=60, timeout=1500, max_rounds=3):
                 f.write("\n".join(lines) + "\n")
             outdir = os.path.join(wd, "apalache-out")
             shutil.rmtree(outdir, ignore_errors=True)
-            env = dict(os.environ, JVM_ARGS="-Xss512m -Xmx4g")
+            tmpd = os.path.join(wd, "tmp")
+            os.makedirs(tmpd, exist_ok=True)
+            # apalache-mc creates its java.io.tmpdir with mktemp -t (honours TMPDIR): keep that litter inside the work directory
+            env = dict(os.environ, JVM_ARGS="-Xss512m -Xmx4g", TMPDIR=tmpd)
             p = subprocess.run(["timeout", str(timeout), "apalache-mc", "check", "--length=0", "--inv=Inv",
                                 "--out-dir=" + outdir, mod + ".tla"], cwd=wd, env=env,
                                stdout=subprocess.PIPE, stderr=subprocess.STDOUT, text=True)
@@ -757,6 +760,7 @@ def big_check(wd, recs, chunk=60, timeout=1500, max_rounds=3):
                 log("more than %d violating records in one chunk; the rest of it was not examined" % max_rounds)
                 break
         shutil.rmtree(outdir, ignore_errors=True)
+        shutil.rmtree(os.path.join(wd, "tmp"), ignore_errors=True)
     return bad_all, nclauses
 
 
@@ -796,7 +800,10 @@ def apalache_stage(run, name, spec, invariants, timeout=900):
     for inv in invariants:
         cmd = ["timeout", str(timeout), "apalache-mc", "check", "--length=0", "--inv=" + inv,
                "--out-dir=" + os.path.join(wd, "apalache-out"), spec]
-        p = subprocess.run(cmd, cwd=os.path.join(SPEC, "apalache"), stdout=subprocess.PIPE, stderr=subprocess.STDOUT, text=True)
+        tmpd = os.path.join(wd, "tmp")
+        os.makedirs(tmpd, exist_ok=True)
+        p = subprocess.run(cmd, cwd=os.path.join(SPEC, "apalache"), stdout=subprocess.PIPE, stderr=subprocess.STDOUT, text=True,
+                           env=dict(os.environ, TMPDIR=tmpd))
         out = p.stdout
         if p.returncode == 124:
             raise ToolError("apalache timed out on %s / %s" % (spec, inv))
@@ -809,6 +816,7 @@ def apalache_stage(run, name, spec, invariants, timeout=900):
         else:
             raise ToolError("apalache failed on %s / %s:\n%s" % (spec, inv, out[-3000:]))
     shutil.rmtree(os.path.join(wd, "apalache-out"), ignore_errors=True)
+    shutil.rmtree(os.path.join(wd, "tmp"), ignore_errors=True)
     run.cov.setdefault("obligations", 0)
     run.cov.setdefault("discharged", 0)
     run.cov["obligations"] += len(invariants)
